@@ -3,7 +3,7 @@
 # Confirms a sub-agent's change in its scratch worktree (demo passes on HEAD, fails with the patch, repo tests pass),
 # stores it as /verif/seeded/<name>/ and runs the listed checks against /repo with the patch applied (undone afterwards).
 P=$1; I=$2; NAME=$3; shift 3
-B=${SEEDBASE:-/tmp/seed}; W=$B/$P; O=$B/$P-out; D=/verif/seeded/$NAME
+B=${SEEDBASE:-/tmp/seed}; W=$B/${SEEDDIR:-$P}; O=$B/${SEEDDIR:-$P}-out; D=/verif/seeded/$NAME   # SEEDDIR: agent directory when it is not named after the property
 cd /verif || exit 2
 git -C $W checkout -q -- . ; rm -rf $W/_b
 sh $O/run_demo$I.sh >$B/$NAME.demo_clean.log 2>&1; r_clean=$?
